@@ -291,6 +291,8 @@ def minimise(prog, fails, limit=150, strong=False):
     """deterministic shrink followed by canonical renaming (kept only if the symptom persists)"""
     from .core import shrink
 
+    if prog.get("text"):  # surface text fixed by hand: the AST cannot be shrunk independently
+        return prog
     small = shrink(prog, strong_candidates if strong else shrink_candidates, fails, limit=limit)
     for cand in canonical_variants(small):
         if cand == small:
